@@ -109,8 +109,6 @@ package geom
 //@   ensures result == nil ==> TwkbInv(p)
 //@   ensures 0 <= p.pos && p.pos <= len(p.twkb) && same(p.twkb, old(p.twkb))
 //@   ensures result == nil && (p.kind == 1 || p.kind == 2 || p.kind == 3) ==> !p.hasIDs
-//@   ensures result == nil <==> old(p.pos) < len(p.twkb) && !((p.kind == 1 || p.kind == 2 || p.kind == 3) && (old(p.twkb[p.pos]) / 4) % 2 == 1)
-//@   ensures old(p.pos) < len(p.twkb) ==> (p.hasBBox <==> old(p.twkb[p.pos]) % 2 == 1) && (p.hasSize <==> (old(p.twkb[p.pos]) / 2) % 2 == 1) && (p.hasIDs <==> (old(p.twkb[p.pos]) / 4) % 2 == 1) && (p.hasExt <==> (old(p.twkb[p.pos]) / 8) % 2 == 1) && (p.isEmpty <==> (old(p.twkb[p.pos]) / 16) % 2 == 1)
 //@   ensures result == nil && p.hasSize ==> 0 <= p.size && p.size <= len(p.twkb)
 
 // ---- geometry level: total for every input; allocation bounded by the input ----
